@@ -832,6 +832,76 @@ H3Index vf_rand_cell(vf_rng *r, int res) {
     }
     return vf_make_cell(res, bc, d);
 }
+/* Cells with a digit pattern: long runs of one digit (mostly 0) under two pentagon base cells and one hexagon base cell.
+ * The centre descendants of a coarse cell, (p,0,...,0), have a non-zero digit only in the high part of the 45 digit bits;
+ * (0,..,0,p,0 x10) and (0,..,0,p,0 x11) put the only non-zero digit just above / across bit 32 of the right-aligned digit
+ * field; runs of 6 and of 1 exercise the carry / rotation chains.  Word-at-a-time or narrowed rewrites of the digit helpers
+ * (leading digit, isPentagon, child position) are wrong exactly on such cells, which neither coarse enumeration, pentagon
+ * neighbourhoods (0,...,0,d) nor uniform sampling produce. */
+int vf_pattern_cells(int res, H3Index *out, int cap) {
+    int n = 0;
+    if (res < 2) return 0;
+    int bcs[3] = {REF_PENT_BC[res % 12], REF_PENT_BC[(res + 5) % 12], (res * 7 + 3) % 122};
+    if (ref_is_pent_bc(bcs[2])) bcs[2] = (bcs[2] + 1) % 122;
+    for (int b = 0; b < 3; b++) {
+        int dg[15];
+        static const int P[3] = {2, 4, 5};
+        for (int k = 0; k < 3; k++) { /* (p,0,...,0) and (p,0,...,0,t) */
+            memset(dg, 0, sizeof dg);
+            dg[0] = P[k];
+            if (n < cap) out[n++] = vf_make_cell(res, bcs[b], dg);
+            dg[res - 1] = 1 + 2 * k > 6 ? 3 : 1 + 2 * k;
+            if (res > 2 && n < cap) out[n++] = vf_make_cell(res, bcs[b], dg);
+        }
+        for (int back = 10; back <= 11; back++) /* the only non-zero digit sits `back` zeros above the finest digit */
+            if (res - back >= 1)
+                for (int k = 1; k < 3; k++) {
+                    memset(dg, 0, sizeof dg);
+                    dg[res - back - 1] = P[k];
+                    if (n < cap) out[n++] = vf_make_cell(res, bcs[b], dg);
+                }
+        for (int d = 1; d <= 6; d += 5) { /* (3,d,d,...,d): runs of 1 and of 6 */
+            for (int i = 0; i < res; i++) dg[i] = d;
+            dg[0] = 3;
+            if (n < cap) out[n++] = vf_make_cell(res, bcs[b], dg);
+        }
+    }
+    int m = 0;
+    for (int i = 0; i < n; i++)
+        if (ref_is_valid_cell(out[i])) out[m++] = out[i];
+    return m;
+}
+/* Cells on the seams between the territories of neighbouring base cells (the descendants of a res-0 cell form a fractal
+ * region: its border is not the res-0 hexagon edge).  Found by bisection along a segment from the centre of base cell A
+ * towards (a point near) the centre of a neighbouring base cell B: the last point whose cell still has base cell A and the
+ * first whose cell has not.  Crossing such a seam is where index arithmetic changes the base cell and re-orients every
+ * digit down to the finest one. */
+int vf_basecell_seam_cells(int res, int npairs, H3Index *out, int cap) {
+    int n = 0, zero[15] = {0};
+    if (res < 1) return 0;
+    for (int k = 0; k < npairs && n + 2 <= cap; k++) {
+        int bcA = (res * 13 + k * 17 + 5) % 122;
+        H3Index A = vf_make_cell(0, bcA, zero), nb[MAX_CELL_BNDRY_VERTS];
+        vf_cell ca, cb, cc;
+        int m = vf_geo_neighbors(A, nb);
+        if (m < 5 || vf_cell_load(A, &ca)) continue;
+        if (vf_cell_load(nb[(res + k) % m], &cb) || vf_cell_load(nb[(res + k + 1) % m], &cc)) continue;
+        ld mix = ((k * 7 + res) % 5) * 0.15L; /* aim at B's centre or up to 60 % of the way towards the next neighbour's */
+        V3 a = ca.c, b = v3_norm(v3_add(v3_scale(cb.c, 1 - mix), v3_scale(cc.c, mix)));
+        ld lo = 0, hi = 1;
+        H3Index hlo = 0, hhi = 0, h;
+        for (int it = 0; it < 70; it++) {
+            ld t = 0.5L * (lo + hi);
+            LatLng g = v3_to_ll(v3_norm(v3_add(v3_scale(a, 1 - t), v3_scale(b, t))));
+            if (latLngToCell(&g, res, &h)) break;
+            if (VF_BC(h) == bcA) lo = t, hlo = h;
+            else hi = t, hhi = h;
+        }
+        if (hlo) out[n++] = hlo;
+        if (hhi) out[n++] = hhi;
+    }
+    return n;
+}
 int vf_special_seeds(int res, int nper, H3Index *out, int cap) {
     int n = 0;
     H3Index h;
@@ -839,6 +909,8 @@ int vf_special_seeds(int res, int nper, H3Index *out, int cap) {
     H3Index p[12];
     if (!getPentagons(res, p))
         for (int i = 0; i < 12 && n < cap; i++) out[n++] = p[i];
+    n += vf_pattern_cells(res, out + n, cap - n > 40 ? 40 : cap - n);
+    n += vf_basecell_seam_cells(res, 8, out + n, cap - n > 16 ? 16 : cap - n);
     for (int e = 0; e < 30; e++) {
         V3 a = VF_ICO_V[VF_ICO_E[e][0]], b = VF_ICO_V[VF_ICO_E[e][1]];
         for (int i = 0; i < nper && n < cap; i++) {
